@@ -2,7 +2,7 @@
 import e2
 
 TIE = ["Nsq.Tie.Chan"]
-PROPS = ["Nsq.Props.C02"]
+PROPS = ["Nsq.Props.C02", "Nsq.Props.C02Micro"]
 
 
 def run(ctx):
@@ -14,8 +14,10 @@ def run(ctx):
                 "after FIN, failed answers change nothing (white-box dump before/after), heap/map agreement")
     ctx.assumptions += [
         "attempts_consecutive: stated for deliveries number n < 65536 of one message (the wire field is uint16)",
-        "micro-step windows of the in-flight map/heap (pushInFlight | addToPQ etc.) are owned by C08's model; here every "
-        "channel operation is one step (the concurrent leg checks the invariants at quiescent points)",
+        "micro-step windows of the in-flight map/heap: proved on the micro-step model Nsq.Model.ChanMicro (one step per "
+        "critical section, any schedule; deadlines abstracted: the scan may pop any heap member); the real-code witnesses "
+        "are the steered late-answer and fin-vs-scan legs; the free-running concurrent leg checks the invariants at "
+        "quiescent points",
     ]
     res, broken = e2.run_property(ctx, "C02", TIE, PROPS)
     if (ctx.broken_ties or broken) and not ctx.violations:
